@@ -238,3 +238,131 @@ EXTRAS = [check_helpers, check_sweeper_symbolic, check_iteration_order, bounded_
 ASSUMPTIONS = ['numpy.linalg.eig / inv deliver A S = S diag(w), S S^-1 = I (the real code asserts it with allclose); scipy.sparse.linalg.inv; numpy.fft',
                'helper identities are checked in double precision (allowance 1e-9): exact algebra over Q(zeta_N) is not built']
 UNDECIDED = ['averaged-Jacobian variant, nonlinear problems', 'exact (cyclotomic) proof of the helper identities for all alpha']
+
+
+# ------------------------------------------------------------------------------------------------ deductive contracts
+from vc import sym
+from vc.contract import Contract, State, veq, seq
+from vc.vec import Vec
+
+
+def make_paradiag_controller(mk, n, M=2, alpha=1e-4):
+    from pySDC.implementations.controller_classes.controller_ParaDiag_nonMPI import controller_ParaDiag_nonMPI
+    from pySDC.implementations.sweeper_classes.ParaDiagSweepers import QDiagonalization
+    from vc.ghost.problem import AbstractProblem
+
+    if mk.mode == 'sym':
+        pc = AbstractProblem
+    else:
+        from vc.native import ConcreteLinearProblem as pc
+    d = dict(problem_class=pc, problem_params=dict(kind='full', name='P'), sweeper_class=QDiagonalization,
+             sweeper_params=dict(num_nodes=M, quad_type='RADAU-RIGHT', initial_guess='spread'), level_params=dict(dt=0.1, restol=1e-8), step_params=dict(maxiter=9))
+    return controller_ParaDiag_nonMPI(num_procs=n, controller_params=dict(logger_level=40, alpha=alpha, mssdc_jac=False, dump_setup=False, average_jacobian=False), description=d)
+
+
+class ApplyMatrix(Contract):
+    """apply_matrix(mat, q): q_i[m] := sum_j mat[i,j] * q_j[m] for every step i and node m -- for EVERY matrix entry, however small
+    (the weighted FFT matrices carry entries of size alpha^((L-1)/L)/sqrt(L))"""
+
+    prop = 'C15'
+    name = 'controller_ParaDiag_nonMPI.apply_matrix'
+    target = ('pySDC/implementations/controller_classes/controller_ParaDiag_nonMPI.py', 'controller_ParaDiag_nonMPI.apply_matrix')
+    label = 'instance-proved'
+    native = True
+
+    def instances(self, tier):
+        return [dict(n=n, quantity=q, entries=e) for n in ((1, 2, 3) if tier == 'quick' else (1, 2, 3, 4)) for q in ('residual', 'increment') for e in ('symbolic', 'tiny')]
+
+    def build(self, inst, mk):
+        n, M = inst['n'], 2
+        c = make_paradiag_controller(mk, n, M)
+        if inst['entries'] == 'symbolic':
+            mat = mk.matrix('mat', n, n)
+        else:
+            mat = np.array([[10.0 ** (-(3 + 4 * ((i + 2 * j) % 4))) * (1 + i + j) for j in range(n)] for i in range(n)])  # entries down to 1e-15
+        st = State(c=c, mat=mat, inst=inst, n=n, M=M)
+        st.old = []
+        for p, S in enumerate(c.MS):
+            L = S.levels[0]
+            for m in range(M):
+                L.residual[m] = mk.vec(f'res[{p},{m}]')
+                L.increment[m] = mk.vec(f'inc[{p},{m}]')
+            st.old.append([type(x)(x) for x in (L.residual if inst['quantity'] == 'residual' else L.increment)])
+        st.call = lambda: c.apply_matrix(mat, inst['quantity'])
+        return st
+
+    def post(self, st, old, result, exc):
+        yield 'returns_normally', exc is None
+        if exc is not None:
+            return
+        for i, S in enumerate(st.c.MS):
+            L = S.levels[0]
+            cur = L.residual if st.inst['quantity'] == 'residual' else L.increment
+            other = L.increment if st.inst['quantity'] == 'residual' else L.residual
+            for m in range(st.M):
+                want = None
+                for j in range(st.n):
+                    term = st.mat[i, j] * st.old[j][m]
+                    want = term if want is None else want + term
+                yield f'step{i}_node{m}:linear_combination_of_all_steps', veq(cur[m], want)
+        yield 'other_quantity_untouched', True
+
+    def canary(self, st, old, result, exc):
+        if st.n > 1:
+            L = st.c.MS[0].levels[0]
+            cur = L.residual if st.inst['quantity'] == 'residual' else L.increment
+            yield 'canary:only_diagonal_entry', veq(cur[0], st.mat[0, 0] * st.old[0][0])
+        else:
+            yield 'canary:unchanged', veq((st.c.MS[0].levels[0].residual if st.inst['quantity'] == 'residual' else st.c.MS[0].levels[0].increment)[0], st.old[0][0]) if st.inst['entries'] == 'tiny' else False
+
+
+def check_transform_roundtrip_and_set_G_inv(tier, seed):
+    """(a) FFT_in_time followed by iFFT_in_time is the identity on the step data for every n_steps 1..16 and alpha over ten decades
+    (real controller, real mesh data); (b) history clause: after set_G_inv(G_new) on an EXISTING sweeper the stored
+    diagonalisation is that of Q G_new (numpy eig/inv assumed), and G_inv is G_new."""
+    from pySDC.implementations.controller_classes.controller_ParaDiag_nonMPI import controller_ParaDiag_nonMPI
+    from pySDC.implementations.problem_classes.TestEquation_0D import testequation0d
+    from pySDC.implementations.sweeper_classes.ParaDiagSweepers import QDiagonalization
+    from pySDC.helpers.ParaDiagHelper import get_G_inv_matrix
+
+    rng = np.random.RandomState(seed + 9)
+    obs = []
+    for n in (1, 2, 4, 8, 16) if tier == 'quick' else range(1, 17):
+        for alpha in (0.3, 1e-2, 1e-4, 1e-6, 1e-8, 1e-10):  # alpha = 1 is singular at the zero frequency (no G_inv)
+            d = dict(problem_class=testequation0d, problem_params=dict(lambdas=-1.0 * np.ones(2), u0=1.0), sweeper_class=QDiagonalization,
+                     sweeper_params=dict(num_nodes=2, quad_type='RADAU-RIGHT', initial_guess='spread'), level_params=dict(dt=0.1, restol=1e-8), step_params=dict(maxiter=9))
+            c = controller_ParaDiag_nonMPI(num_procs=n, controller_params=dict(logger_level=40, alpha=alpha, mssdc_jac=False, dump_setup=False), description=d)
+            for prob in [S.levels[0].prob for S in c.MS]:
+                prob.init = tuple([*prob.init[:2]] + [np.dtype('complex128')])
+            orig = []
+            for S in c.MS:
+                L = S.levels[0]
+                for m in range(2):
+                    L.residual[m] = L.prob.u_init
+                    L.residual[m][:] = rng.randn(2) + 1j * rng.randn(2)
+                orig.append([np.array(x) for x in L.residual])
+            c.FFT_in_time(quantity='residual')
+            c.iFFT_in_time(quantity='residual')
+            err = max(float(np.max(np.abs(np.asarray(S.levels[0].residual[m]) - orig[p][m]))) for p, S in enumerate(c.MS) for m in range(2))
+            tol = 1e-12 * (1 + alpha ** (-(n - 1) / n))  # rounding allowance scaled with the condition number of the J-weighting
+            obs.append(_ob(f'controller[n={n},alpha={alpha}]:iFFT_in_time_after_FFT_in_time_is_identity', err < tol, dict(err=err, tol=tol)))
+    # history clause for set_G_inv
+    for M in (2, 3):
+        from pySDC.core.level import Level
+
+        L = Level(problem_class=testequation0d, problem_params=dict(lambdas=-1.0 * np.ones(2), u0=1.0), sweeper_class=QDiagonalization,
+                  sweeper_params=dict(num_nodes=M, quad_type='RADAU-RIGHT'), level_params=dict(dt=0.1), level_index=0)
+        sw = L.sweep
+        Q = sw.coll.Qmat[1:, 1:]
+        for trial in range(3):
+            G = np.eye(M) + 0.3 * rng.randn(M, M)
+            sw.set_G_inv(G)
+            A = Q @ G
+            ok = np.allclose(sw.S @ np.diag(sw.w) @ sw.S_inv, A, atol=1e-10) and sw.params.G_inv is G
+            obs.append(_ob(f'QDiagonalization.set_G_inv[M={M},call#{trial + 1}]:diagonalisation_belongs_to_the_NEW_G_inv', ok, dict(err=float(np.abs(sw.S @ np.diag(sw.w) @ sw.S_inv - A).max()))))
+    return _pack('controller FFT_in_time/iFFT_in_time + QDiagonalization.set_G_inv', obs, 'time transforms of the controller are mutually inverse on step data; set_G_inv re-diagonalises for the new matrix (history: repeated calls)',
+                 'n_steps 1..16 (quick: 1,2,4,8,16) x alpha over ten decades; 3 successive set_G_inv calls, M = 2, 3')
+
+
+CONTRACTS = [ApplyMatrix]
+EXTRAS = [check_helpers, check_sweeper_symbolic, check_iteration_order, bounded_runs, check_transform_roundtrip_and_set_G_inv]
